@@ -23,7 +23,7 @@ RULE = (
     "of invalid configurations that must be rejected; for each valid one: canonical-form oracle, a WALK over every model "
     "object and ndarray reachable from the validated object (setattr on every field and an in-place write on every array "
     "must raise), and an E3 closure: all sequences of <=3 operations from {validate(object), validate(dump), "
-    "validate(JSON round trip)} must stay in ONE canonical state (field-wise dtype/shape/bytes of the dump). "
+    "validate(JSON round trip), re-use of the validated sub-objects inside another configuration} must stay in ONE canonical state (field-wise dtype/shape/bytes of the dump). "
     "Every case is non-trivial."
 )
 ASSUMPTIONS = [
@@ -205,7 +205,7 @@ def first_diff(a: tuple[Any, ...], b: tuple[Any, ...]) -> str:
     return "length"
 
 
-OPS = ["object", "dump", "json"]
+OPS = ["object", "dump", "json", "parts"]
 
 
 def apply_op(config: Any, op: str) -> Any:
@@ -213,6 +213,21 @@ def apply_op(config: Any, op: str) -> Any:
 
     if op == "object":
         return EnOptConfig.model_validate(config)
+    if op == "parts":
+        # Re-use the validated sub-objects of this configuration inside ANOTHER configuration (other bounds and initial
+        # values): validated objects are frozen, so this must leave them - and hence `config` - unchanged.
+        n_var = config.variables.initial_values.size
+        other: dict[str, Any] = {
+            "variables": {"initial_values": [0.0] * n_var, "lower_bounds": [-16.0] * n_var, "upper_bounds": [48.0] * n_var},
+            "gradient": config.gradient,
+            "realizations": config.realizations,
+            "objectives": config.objectives,
+            "optimizer": config.optimizer,
+        }
+        if config.nonlinear_constraints is not None:
+            other["nonlinear_constraints"] = config.nonlinear_constraints
+        EnOptConfig.model_validate(other)
+        return config
     dump = config.model_dump(round_trip=True)
     if op == "dump":
         return EnOptConfig.model_validate(dump)
@@ -311,6 +326,31 @@ def judge_valid(case: dict[str, Any]) -> Judgement:
                 seen.add(state)
                 nxt.append((new, hist + (op,)))
         frontier = nxt
+    # ---- separately validated sub-configuration objects embedded in a configuration stay as they were
+    from ropt.config.enopt import GradientConfig, RealizationsConfig, VariablesConfig
+
+    def sub_canon(obj: Any) -> Any:
+        out = []
+        for name in type(obj).model_fields:
+            value = getattr(obj, name)
+            out.append((name, (str(value.dtype), value.shape, value.tobytes()) if isinstance(value, np.ndarray) else repr(value)))
+        return out
+
+    try:
+        parts = {
+            "gradient": GradientConfig.model_validate(_copy(cfg["gradient"])),
+            "realizations": RealizationsConfig.model_validate(_copy(cfg["realizations"])),
+        }
+        before = {k: sub_canon(v) for k, v in parts.items()}
+        embedded = _copy(cfg)
+        embedded.update(parts)
+        EnOptConfig.model_validate(embedded, context=transforms)
+        j.transitions += 1
+        for k, v in parts.items():
+            if sub_canon(v) != before[k]:
+                j.fail(f"validated-sub-object-changed-by-embedding:{k}", tags=case["tags"])
+    except Exception as exc:  # noqa: BLE001
+        j.fail(f"embedding-validated-sub-object-raised:{type(exc).__name__}", message=str(exc)[:200])
     j.outcome = f"states={len(seen)}/" + "/".join(case["tags"][6:10])
     return j
 
